@@ -34,6 +34,7 @@ CONSTANTS Pool,        \* set of compartment ids that may be used
           FlowKinds,   \* rate kinds of flows between compartments
           MaxOps,      \* number of builder operations explored after the seed system
           Thin, ThinRes, FullDepth,   \* seed systems and operations beyond FullDepth: only hash % Thin = ThinRes
+          SeedThin,    \* seed flows of systems with MaxComps >= 4 compartments are thinned by this factor
           SampleMod, SampleRes        \* emission sampling
 
 VARIABLES ins, flow, doses, lag, bio, inp, hist, n, h
@@ -93,6 +94,7 @@ SeedAddCompartment(a, d, c) ==
 SeedAddFlow(a, b, k) ==
     /\ n = 0 /\ a \in Comps /\ b \in Comps \cup {0} /\ a # b /\ Cardinality(flow) < MaxFlows
     /\ \A f \in flow : f[1] < a \/ (f[1] = a /\ f[2] < b)
+    /\ (Len(ins) < 4 \/ SeedThin = 1 \/ Mix(h, Code(Op("add_flow", a, b, k, 0))) % SeedThin = ThinRes % SeedThin)
     /\ flow' = flow \cup {<<a, b, k>>}
     /\ UNCHANGED <<ins, doses, lag, bio, inp>>
     /\ SeedLog(Op("add_flow", a, b, k, 0))
